@@ -341,8 +341,7 @@ theorem walk_break_maxToi_sound (q : Quant K) (hq : LawfulQuant q) (h : HF3 K) (
   intro u hu1 hu2
   exact ⟨ax2 u hu1 (le_trans hu2 (le_of_lt hbx)), az2 u hu1 (le_trans hu2 (le_of_lt hbz))⟩
 
-/-- The end-to-end statement (NOT proved in this file; proved in `Theorems6.lean`, `walk_covers_full_generic`, for every velocity
-with both horizontal components non-zero; still open when exactly one of them is zero): whenever the (loosened) box of the moving shape, translated by `t·vel`
+/-- The end-to-end statement (NOT proved in this file; proved in `Theorems6.lean`, `walk_covers_full_generic`, for every velocity): whenever the (loosened) box of the moving shape, translated by `t·vel`
 for some `t ∈ [0, max_time_of_impact]`, overlaps the open rectangle of an in-field cell `(i, j)` (and the vertical range of
 the field), the trace of the walk contains `(i, j)`.  Proved parts: the cell always moves (`cellMove_clamped_moves`), the
 walk follows the centre ray cell by cell (`walkStep_tracks_ray`, `cellAtPoint_contains`), the block of ranges around the
